@@ -242,6 +242,9 @@ def specs(tier, seed):
                     out.append(dict(cell=cell, pattern=pat, copies=copies, seed=seed * 1000 + s, noise=0.008 if s % 2 else 0.0,
                                     decoys=3, mirror=1 if pat == 'chiral4' else 0, near_miss=1 if len(geo.PATTERNS[pat][0]) > 1 else 0,
                                     rng=s))
+    for cell in cells:
+        for s in range(2 if tier == 'quick' else 8):
+            out.append(dict(cell=cell, pattern='nearflat5', copies=2, seed=seed * 1000 + 950 + s, noise=0.006 if s % 2 else 0.0, decoys=2, mirror=1, near_miss=1, rng=s))
     # requested tolerances other than the default (tighter and wider), distortions and near misses scaled with them
     for pat in ('planar3', 'chiral4', 'sym5'):
         for ci, cell in enumerate(cells):
